@@ -1,7 +1,668 @@
-(* Hand-written model of the ELF loader (src/elf/elf.rs + the part of the `elf`
-   crate it uses).  PLACEHOLDER: completed in a later stage. *)
+(* Hand-written model of the ELF loader: Axecutor::from_binary (src/elf/elf.rs)
+   together with the part of the `elf` crate (v0.7.4) it calls:
+     endian.rs   safe_from! / parse_uN_at            -> rd
+     parse.rs    get_bytes, ParsingTable::{get,iter}, ParsingIterator::next
+     file.rs     verify_ident, parse_ident, FileHeader::parse_tail
+     segment.rs  ProgramHeader::{parse_at,get_file_data_range}
+     section.rs  SectionHeader::{parse_at,get_data_range}
+     symbol.rs   Symbol::{parse_at,is_undefined}
+     string_table.rs  StringTable::{get_raw,get}
+     elf_bytes.rs     find_shdrs, find_phdrs, minimal_parse, segments,
+                      segment_data, section_data_as_symbol_table, symbol_table
+   Both classes (ELF32/ELF64) and both byte orders are modelled (the loader uses
+   ElfBytes::<AnyEndian>).  Every ParseError / "ELF: .." AxError is [Err EElf];
+   errors of the memory functions keep their class.
+   Tie to the code: correspondence check `elf` (gen_cases/elf_gen.py).
+   Definitions only. *)
 From Coq Require Import ZArith Bool List.
 From AxV Require Import Bits Outcome Codes Iced State Rt Mem.
 Local Open Scope Z_scope.
+Import ListNotations.
 
-Definition from_binary (c : cfg) (data : list Z) : MM unit := fun s => (Err EElf, s).
+(* ------------------------------------------------------------------ *)
+(* parse.rs / endian.rs                                               *)
+(* ------------------------------------------------------------------ *)
+
+Inductive eclass := ELF32 | ELF64.
+
+Definition U64_LIMIT : Z := 2 ^ 64.
+
+(* usize::checked_add / checked_mul *)
+Definition checked_add64 (a b : Z) : option Z :=
+  if a + b <? U64_LIMIT then Some (a + b) else None.
+Definition checked_mul64 (a b : Z) : option Z :=
+  if a * b <? U64_LIMIT then Some (a * b) else None.
+
+(* <&[u8] as ReadBytesExt>::get_bytes(start..end) = slice.get(start..end):
+   None iff start > end or end > len *)
+Definition get_bytes (data : list Z) (start end_ : Z) : option (list Z) :=
+  if (start <=? end_) && (end_ <=? zlen data) then Some (slice data start (end_ - start))
+  else None.
+
+(* A parser reads from the not yet consumed suffix of a buffer.  The Rust code
+   keeps (data, &mut offset); since the offset only ever moves forward by the
+   size of a successfully read integer, (data, offset) is represented by
+   [skipn offset data].  A failed read (checked_add overflow or slice.get out of
+   range) is None. *)
+Definition P (A : Type) := list Z -> option (A * list Z).
+Definition pret {A} (a : A) : P A := fun l => Some (a, l).
+Definition pbind {A B} (p : P A) (f : A -> P B) : P B :=
+  fun l => match p l with Some (a, l') => f a l' | None => None end.
+
+Declare Scope p_scope.
+Delimit Scope p_scope with P.
+Notation "x <- e ;; k" := (pbind e (fun x => k))
+  (at level 61, e at next level, right associativity) : p_scope.
+
+Fixpoint take_n (n : nat) (l : list Z) : option (list Z * list Z) :=
+  match n with
+  | O => Some (nil, l)
+  | S n' =>
+      match l with
+      | nil => None
+      | b :: l' =>
+          match take_n n' l' with
+          | Some (h, t) => Some (b :: h, t)
+          | None => None
+          end
+      end
+  end.
+
+(* safe_from!: read an n-byte unsigned integer in the file's byte order *)
+Definition rd (little : bool) (n : nat) : P Z :=
+  fun l => match take_n n l with
+           | Some (h, t) => Some (of_le_bytes (if little then h else rev h), t)
+           | None => None
+           end.
+Definition rd8 (little : bool) : P Z := rd little 1.
+Definition rd16 (little : bool) : P Z := rd little 2.
+Definition rd32 (little : bool) : P Z := rd little 4.
+Definition rd64 (little : bool) : P Z := rd little 8.
+(* Elf32_Addr/Off/Word `as u64` versus Elf64_Addr/Off/Xword *)
+Definition rdw (little : bool) (cls : eclass) : P Z :=
+  match cls with ELF32 => rd32 little | ELF64 => rd64 little end.
+
+(* parse_at(.., &mut offset, data) with a caller supplied offset: the first
+   integer read fails when offset > len (or offset + size overflows) *)
+Definition parse_at {A} (p : P A) (data : list Z) (offset : Z) : option A :=
+  if offset <=? zlen data then
+    match p (skipn (Z.to_nat offset) data) with
+    | Some (a, _) => Some a
+    | None => None
+    end
+  else None.
+
+(* ParsingIterator: `if data.is_empty() { None } else { parse_at(..).ok() }`,
+   collected up to the first None (all consumers here are `for` loops / `find`,
+   which stop at the first None).  Every successful parse consumes at least one
+   byte, so fuel [S (length l)] is never exhausted. *)
+Fixpoint iter_go {A} (p : P A) (fuel : nat) (l : list Z) : list A :=
+  match fuel with
+  | O => nil
+  | S f =>
+      match l with
+      | nil => nil
+      | _ :: _ =>
+          match p l with
+          | Some (a, l') => a :: iter_go p f l'
+          | None => nil
+          end
+      end
+  end.
+Definition table_iter {A} (p : P A) (buf : list Z) : list A := iter_go p (S (length buf)) buf.
+
+(* ParsingTable::get(index) *)
+Definition table_get {A} (p : P A) (entsize : Z) (buf : list Z) (index : Z) : option A :=
+  match buf with
+  | nil => None                                   (* BadOffset *)
+  | _ :: _ =>
+      match checked_mul64 index entsize with
+      | None => None                              (* IntegerOverflow *)
+      | Some start =>
+          if start >? zlen buf then None          (* BadOffset *)
+          else parse_at p buf start
+      end
+  end.
+
+(* ------------------------------------------------------------------ *)
+(* file.rs                                                            *)
+(* ------------------------------------------------------------------ *)
+
+Record ehdr := {
+  eh_class : eclass;
+  eh_little : bool;
+  eh_version : Z;
+  eh_osabi : Z;
+  eh_abiversion : Z;
+  e_type : Z;
+  e_machine : Z;
+  e_entry : Z;
+  e_phoff : Z;
+  e_shoff : Z;
+  e_flags : Z;
+  e_ehsize : Z;
+  e_phentsize : Z;
+  e_phnum : Z;
+  e_shentsize : Z;
+  e_shnum : Z;
+  e_shstrndx : Z
+}.
+
+Definition EI_NIDENT : Z := 16.
+Definition ELFMAGIC : list Z := [127; 69; 76; 70].
+Definition ELF32_EHDR_TAILSIZE : Z := 36.
+Definition ELF64_EHDR_TAILSIZE : Z := 48.
+
+Definition list_eqb (a b : list Z) : bool :=
+  (Nat.eqb (length a) (length b)) && forallb (fun p => fst p =? snd p) (combine a b).
+
+(* verify_ident + parse_ident on the 16 ident bytes: (little, class, osabi, abiversion) *)
+Definition parse_ident (buf : list Z) : option (bool * eclass * Z * Z) :=
+  if negb (list_eqb (firstn 4 buf) ELFMAGIC) then None            (* BadMagic *)
+  else if negb (nth 6 buf 0 =? 1) then None                       (* UnsupportedVersion *)
+  else
+    match (if nth 4 buf 0 =? 1 then Some ELF32
+           else if nth 4 buf 0 =? 2 then Some ELF64 else None) with
+    | None => None                                                (* UnsupportedElfClass *)
+    | Some cls =>
+        match (if nth 5 buf 0 =? 1 then Some true
+               else if nth 5 buf 0 =? 2 then Some false else None) with
+        | None => None                                            (* UnsupportedElfEndianness *)
+        | Some little => Some (little, cls, nth 7 buf 0, nth 8 buf 0)
+        end
+    end.
+
+Definition parse_tail (ident : bool * eclass * Z * Z) : P ehdr :=
+  let '(little, cls, osabi, abiversion) := ident in
+  (ty <- rd16 little ;;
+   machine <- rd16 little ;;
+   version <- rd32 little ;;
+   entry <- rdw little cls ;;
+   phoff <- rdw little cls ;;
+   shoff <- rdw little cls ;;
+   flags <- rd32 little ;;
+   ehsize <- rd16 little ;;
+   phentsize <- rd16 little ;;
+   phnum <- rd16 little ;;
+   shentsize <- rd16 little ;;
+   shnum <- rd16 little ;;
+   shstrndx <- rd16 little ;;
+   pret {| eh_class := cls; eh_little := little; eh_version := version; eh_osabi := osabi;
+           eh_abiversion := abiversion; e_type := ty; e_machine := machine; e_entry := entry;
+           e_phoff := phoff; e_shoff := shoff; e_flags := flags; e_ehsize := ehsize;
+           e_phentsize := phentsize; e_phnum := phnum; e_shentsize := shentsize;
+           e_shnum := shnum; e_shstrndx := shstrndx |})%P.
+
+(* ------------------------------------------------------------------ *)
+(* segment.rs                                                         *)
+(* ------------------------------------------------------------------ *)
+
+Record phdr := {
+  p_type : Z;
+  p_offset : Z;
+  p_vaddr : Z;
+  p_paddr : Z;
+  p_filesz : Z;
+  p_memsz : Z;
+  p_flags : Z;
+  p_align : Z
+}.
+
+Definition parse_phdr (little : bool) (cls : eclass) : P phdr :=
+  match cls with
+  | ELF32 =>
+      (ty <- rd32 little ;; off <- rd32 little ;; va <- rd32 little ;; pa <- rd32 little ;;
+       fsz <- rd32 little ;; msz <- rd32 little ;; fl <- rd32 little ;; al <- rd32 little ;;
+       pret {| p_type := ty; p_offset := off; p_vaddr := va; p_paddr := pa; p_filesz := fsz;
+               p_memsz := msz; p_flags := fl; p_align := al |})%P
+  | ELF64 =>
+      (ty <- rd32 little ;; fl <- rd32 little ;; off <- rd64 little ;; va <- rd64 little ;;
+       pa <- rd64 little ;; fsz <- rd64 little ;; msz <- rd64 little ;; al <- rd64 little ;;
+       pret {| p_type := ty; p_offset := off; p_vaddr := va; p_paddr := pa; p_filesz := fsz;
+               p_memsz := msz; p_flags := fl; p_align := al |})%P
+  end.
+
+Definition phdr_size (cls : eclass) : Z := match cls with ELF32 => 32 | ELF64 => 56 end.
+
+(* get_file_data_range: (p_offset, p_offset + p_filesz), checked *)
+Definition phdr_file_range (ph : phdr) : option (Z * Z) :=
+  match checked_add64 (p_offset ph) (p_filesz ph) with
+  | Some e => Some (p_offset ph, e)
+  | None => None
+  end.
+
+(* ------------------------------------------------------------------ *)
+(* section.rs                                                         *)
+(* ------------------------------------------------------------------ *)
+
+Record shdr := {
+  sh_name : Z;
+  sh_type : Z;
+  sh_flags : Z;
+  sh_addr : Z;
+  sh_offset : Z;
+  sh_size : Z;
+  sh_link : Z;
+  sh_info : Z;
+  sh_addralign : Z;
+  sh_entsize : Z
+}.
+
+Definition parse_shdr (little : bool) (cls : eclass) : P shdr :=
+  (nm <- rd32 little ;; ty <- rd32 little ;; fl <- rdw little cls ;; ad <- rdw little cls ;;
+   off <- rdw little cls ;; sz <- rdw little cls ;; lk <- rd32 little ;; inf <- rd32 little ;;
+   aa <- rdw little cls ;; es <- rdw little cls ;;
+   pret {| sh_name := nm; sh_type := ty; sh_flags := fl; sh_addr := ad; sh_offset := off;
+           sh_size := sz; sh_link := lk; sh_info := inf; sh_addralign := aa; sh_entsize := es |})%P.
+
+Definition shdr_size (cls : eclass) : Z := match cls with ELF32 => 40 | ELF64 => 64 end.
+
+(* get_data_range: (sh_offset, sh_offset + sh_size), checked *)
+Definition shdr_data_range (sh : shdr) : option (Z * Z) :=
+  match checked_add64 (sh_offset sh) (sh_size sh) with
+  | Some e => Some (sh_offset sh, e)
+  | None => None
+  end.
+
+(* ------------------------------------------------------------------ *)
+(* symbol.rs                                                          *)
+(* ------------------------------------------------------------------ *)
+
+Record symbol := {
+  st_name : Z;
+  st_shndx : Z;
+  st_info : Z;
+  st_other : Z;
+  st_value : Z;
+  st_size : Z
+}.
+
+Definition parse_symbol (little : bool) (cls : eclass) : P symbol :=
+  match cls with
+  | ELF32 =>
+      (nm <- rd32 little ;; v <- rd32 little ;; sz <- rd32 little ;; inf <- rd8 little ;;
+       oth <- rd8 little ;; ndx <- rd16 little ;;
+       pret {| st_name := nm; st_shndx := ndx; st_info := inf; st_other := oth;
+               st_value := v; st_size := sz |})%P
+  | ELF64 =>
+      (nm <- rd32 little ;; inf <- rd8 little ;; oth <- rd8 little ;; ndx <- rd16 little ;;
+       v <- rd64 little ;; sz <- rd64 little ;;
+       pret {| st_name := nm; st_shndx := ndx; st_info := inf; st_other := oth;
+               st_value := v; st_size := sz |})%P
+  end.
+
+Definition symbol_size (cls : eclass) : Z := match cls with ELF32 => 16 | ELF64 => 24 end.
+
+Definition SHN_UNDEF : Z := 0.
+Definition is_undefined (sy : symbol) : bool := st_shndx sy =? SHN_UNDEF.
+
+(* ------------------------------------------------------------------ *)
+(* string_table.rs                                                    *)
+(* ------------------------------------------------------------------ *)
+
+(* bytes before the first NUL; None if there is none *)
+Fixpoint until_nul (l : list Z) : option (list Z) :=
+  match l with
+  | nil => None
+  | b :: l' =>
+      if b =? 0 then Some nil
+      else match until_nul l' with Some r => Some (b :: r) | None => None end
+  end.
+
+Definition strtab_get_raw (tab : list Z) (offset : Z) : option (list Z) :=
+  match tab with
+  | nil => None                                          (* BadOffset *)
+  | _ :: _ =>
+      if offset >? zlen tab then None                    (* data.get(offset..) = None *)
+      else until_nul (skipn (Z.to_nat offset) tab)       (* StringTableMissingNul *)
+  end.
+
+(* core::str::from_utf8: well-formed UTF-8 (no overlong forms, no surrogates,
+   at most U+10FFFF), the table of core::str::validations *)
+Definition cont_byte (b : Z) : bool := (128 <=? b) && (b <=? 191).
+Definition in_rng (lo hi b : Z) : bool := (lo <=? b) && (b <=? hi).
+
+Fixpoint utf8_valid (l : list Z) : bool :=
+  match l with
+  | nil => true
+  | b0 :: r =>
+      if b0 <? 128 then utf8_valid r
+      else if in_rng 194 223 b0 then
+        match r with
+        | b1 :: r1 => cont_byte b1 && utf8_valid r1
+        | _ => false
+        end
+      else if in_rng 224 239 b0 then
+        match r with
+        | b1 :: b2 :: r2 =>
+            (if b0 =? 224 then in_rng 160 191 b1
+             else if b0 =? 237 then in_rng 128 159 b1
+             else cont_byte b1)
+            && cont_byte b2 && utf8_valid r2
+        | _ => false
+        end
+      else if in_rng 240 244 b0 then
+        match r with
+        | b1 :: b2 :: b3 :: r3 =>
+            (if b0 =? 240 then in_rng 144 191 b1
+             else if b0 =? 244 then in_rng 128 143 b1
+             else cont_byte b1)
+            && cont_byte b2 && cont_byte b3 && utf8_valid r3
+        | _ => false
+        end
+      else false
+  end.
+
+Definition strtab_get (tab : list Z) (offset : Z) : option (list Z) :=
+  match strtab_get_raw tab offset with
+  | Some raw => if utf8_valid raw then Some raw else None    (* Utf8Error *)
+  | None => None
+  end.
+
+(* ------------------------------------------------------------------ *)
+(* elf_bytes.rs                                                       *)
+(* ------------------------------------------------------------------ *)
+
+Record elf_bytes := {
+  eb_ehdr : ehdr;
+  eb_data : list Z;
+  eb_shdrs : option (list Z);     (* bytes of the section header table *)
+  eb_phdrs : option (list Z)      (* bytes of the program header table *)
+}.
+
+Definition PN_XNUM : Z := 65535.
+
+(* Result<Option<table bytes>, ParseError>: outer None = Err *)
+Definition find_shdrs (eh : ehdr) (data : list Z) : option (option (list Z)) :=
+  if e_shoff eh =? 0 then Some None
+  else
+    let shoff := e_shoff eh in
+    match (if e_shnum eh =? 0 then
+             match parse_at (parse_shdr (eh_little eh) (eh_class eh)) data shoff with
+             | Some shdr0 => Some (sh_size shdr0)
+             | None => None
+             end
+           else Some (e_shnum eh)) with
+    | None => None
+    | Some shnum =>
+        if negb (e_shentsize eh =? shdr_size (eh_class eh)) then None     (* BadEntsize *)
+        else
+          match checked_mul64 (e_shentsize eh) shnum with
+          | None => None
+          | Some size =>
+              match checked_add64 shoff size with
+              | None => None
+              | Some end_ =>
+                  match get_bytes data shoff end_ with
+                  | Some buf => Some (Some buf)
+                  | None => None
+                  end
+              end
+          end
+    end.
+
+Definition find_phdrs (eh : ehdr) (data : list Z) : option (option (list Z)) :=
+  if e_phoff eh =? 0 then Some None
+  else
+    match (if e_phnum eh =? PN_XNUM then
+             (* note: e_shoff is used as it is, also when it is 0 *)
+             match parse_at (parse_shdr (eh_little eh) (eh_class eh)) data (e_shoff eh) with
+             | Some shdr0 => Some (sh_info shdr0)
+             | None => None
+             end
+           else Some (e_phnum eh)) with
+    | None => None
+    | Some phnum =>
+        if negb (e_phentsize eh =? phdr_size (eh_class eh)) then None     (* BadEntsize *)
+        else
+          let phoff := e_phoff eh in
+          match checked_mul64 (e_phentsize eh) phnum with
+          | None => None
+          | Some size =>
+              match checked_add64 phoff size with
+              | None => None
+              | Some end_ =>
+                  match get_bytes data phoff end_ with
+                  | Some buf => Some (Some buf)
+                  | None => None
+                  end
+              end
+          end
+    end.
+
+Definition minimal_parse (data : list Z) : option elf_bytes :=
+  match get_bytes data 0 EI_NIDENT with
+  | None => None
+  | Some ident_buf =>
+      match parse_ident ident_buf with
+      | None => None
+      | Some ident =>
+          let '(_, cls, _, _) := ident in
+          let tail_end := EI_NIDENT + match cls with
+                                      | ELF32 => ELF32_EHDR_TAILSIZE
+                                      | ELF64 => ELF64_EHDR_TAILSIZE
+                                      end in
+          match get_bytes data EI_NIDENT tail_end with
+          | None => None
+          | Some tail_buf =>
+              match parse_tail ident tail_buf with
+              | None => None
+              | Some (eh, _) =>
+                  match find_shdrs eh data with
+                  | None => None
+                  | Some shdrs =>
+                      match find_phdrs eh data with
+                      | None => None
+                      | Some phdrs =>
+                          Some {| eb_ehdr := eh; eb_data := data; eb_shdrs := shdrs; eb_phdrs := phdrs |}
+                      end
+                  end
+              end
+          end
+      end
+  end.
+
+Definition eb_little (f : elf_bytes) : bool := eh_little (eb_ehdr f).
+Definition eb_class (f : elf_bytes) : eclass := eh_class (eb_ehdr f).
+
+(* segment_data *)
+Definition segment_data (f : elf_bytes) (ph : phdr) : option (list Z) :=
+  match phdr_file_range ph with
+  | Some (st, en) => get_bytes (eb_data f) st en
+  | None => None
+  end.
+
+Definition SHT_SYMTAB : Z := 2.
+
+(* section_data_as_symbol_table: (symtab bytes, strtab bytes) *)
+Definition section_data_as_symbol_table (f : elf_bytes) (sh strtab_sh : shdr)
+  : option (list Z * list Z) :=
+  if negb (sh_entsize sh =? symbol_size (eb_class f)) then None          (* BadEntsize *)
+  else
+    match shdr_data_range sh with
+    | None => None
+    | Some (s0, e0) =>
+        match get_bytes (eb_data f) s0 e0 with
+        | None => None
+        | Some symtab_buf =>
+            match shdr_data_range strtab_sh with
+            | None => None
+            | Some (s1, e1) =>
+                match get_bytes (eb_data f) s1 e1 with
+                | None => None
+                | Some strtab_buf => Some (symtab_buf, strtab_buf)
+                end
+            end
+        end
+    end.
+
+(* symbol_table(): Result<Option<(SymbolTable, StringTable)>>; outer None = Err *)
+Definition symbol_table (f : elf_bytes) : option (option (list Z * list Z)) :=
+  match eb_shdrs f with
+  | None => Some None
+  | Some shbuf =>
+      let psh := parse_shdr (eb_little f) (eb_class f) in
+      match find (fun sh => sh_type sh =? SHT_SYMTAB) (table_iter psh shbuf) with
+      | None => Some None
+      | Some symtab_sh =>
+          match table_get psh (shdr_size (eb_class f)) shbuf (sh_link symtab_sh) with
+          | None => None
+          | Some strtab_sh =>
+              match section_data_as_symbol_table f symtab_sh strtab_sh with
+              | Some r => Some (Some r)
+              | None => None
+              end
+          end
+      end
+  end.
+
+(* ------------------------------------------------------------------ *)
+(* src/elf/elf.rs                                                     *)
+(* ------------------------------------------------------------------ *)
+
+Definition PF_X : Z := 1.
+Definition PF_W : Z := 2.
+Definition PF_R : Z := 4.
+
+Definition PT_NULL : Z := 0.
+Definition PT_LOAD : Z := 1.
+Definition PT_DYNAMIC : Z := 2.
+Definition PT_INTERP : Z := 3.
+Definition PT_NOTE : Z := 4.
+Definition PT_SHLIB : Z := 5.
+Definition PT_PHDR : Z := 6.
+Definition PT_TLS : Z := 7.
+Definition PT_GNU_EH_FRAME : Z := 1685382480.  (* 0x6474e550 *)
+Definition PT_GNU_STACK : Z := 1685382481.     (* 0x6474e551 *)
+Definition PT_GNU_RELRO : Z := 1685382482.     (* 0x6474e552 *)
+Definition PT_GNU_PROPERTY : Z := 1685382483.  (* 0x6474e553 *)
+
+Definition elf_flags_to_prot (flags : Z) : Z :=
+  Z.lor (Z.lor (if Z.land flags PF_R =? 0 then 0 else PROT_READ)
+               (if Z.land flags PF_W =? 0 then 0 else PROT_WRITE))
+        (if Z.land flags PF_X =? 0 then 0 else PROT_EXEC).
+
+(* round_up_to_page_size: None (-> "ELF: Segment memory size is too large") above MAX_SEGMENT_MEMSZ,
+   else (size + 0xfff) & !0xfff (the addition cannot overflow below the limit) *)
+Definition MAX_SEGMENT_MEMSZ : Z := 2 ^ 28.
+Definition round_up_to_page_size (c : cfg) (size : Z) : outcome Z :=
+  if size >? MAX_SEGMENT_MEMSZ then Err EElf
+  else match add_chk c U64 size 4095 with
+       | Ok v => Ok (Z.land v (wnot U64 4095))
+       | Err e => Err e
+       | Panic p => Panic p
+       | Fuel => Fuel
+       end.
+
+(* elf::to_str::p_type_to_str(..).is_some() *)
+Definition p_type_known (t : Z) : bool :=
+  in_rng PT_NULL PT_TLS t || in_rng PT_GNU_EH_FRAME PT_GNU_PROPERTY t.
+
+(* `p_type_to_str(p_type).unwrap_or("unknown")` as an argument of debug_log!: no effect *)
+Definition debug_expect_p_type (c : cfg) (t : Z) : MM unit := ret tt.
+
+Definition START_NAME : list Z := [95; 115; 116; 97; 114; 116]. (* "_start" *)
+
+(* HashMap::insert: replaces the value of an existing key *)
+Definition symbols_insert (k : Z) (v : list Z) : MM unit :=
+  fun s => (Ok tt, set_symbols s ((k, v) :: filter (fun p => negb (fst p =? k)) (symbols s))).
+
+Definition trace_push (t : trace_entry) : MM unit :=
+  fun s => (Ok tt, set_trace s (trace s ++ [t])).
+
+(* mem_init_zero_named(start, length, name) = mem_init_zero start length (names are
+   not part of the model state).  This variant performs the checks of
+   mem_init_area before building the zero vector, so that a rejected request
+   never materialises `zeros length`; it is extensionally equal to
+   [Mem.mem_init_zero] for length >= 0 (Proofs/ElfP.v: mem_init_zero_chk_eq). *)
+Definition mem_init_zero_chk (start length : Z) : MM unit :=
+  fun s =>
+    if length >? alloc_limit then (Panic PAlloc, s)
+    else if start + length >=? 2 ^ 64 then (Err EOther, s)
+    else if existsb (fun a => area_blocks a start length) (mem s) then (Err EOther, s)
+    else mem_init_area start (zeros length) s.
+
+Definition load_pt_load (c : cfg) (ph : phdr) (content : list Z) : MM unit :=
+  (memsz <- lift (round_up_to_page_size c (p_memsz ph)) ;;
+   (if memsz =? p_filesz ph then
+      mem_init_area (p_vaddr ph) content
+    else
+      (mem_init_zero_chk (p_vaddr ph) memsz ;;;
+       (if zlen content >? p_filesz ph then fail EElf else ret tt) ;;;
+       (* &content[..p_filesz as usize] *)
+       (if p_filesz ph <=? zlen content then
+          mem_write_bytes (p_vaddr ph) (firstn (Z.to_nat (p_filesz ph)) content)
+        else panic PIndex))) ;;;
+   mem_prot (p_vaddr ph) (elf_flags_to_prot (p_flags ph)))%M.
+
+Definition load_pt_tls (c : cfg) (ph : phdr) : MM unit :=
+  (fs0 <- get_fs ;;
+   lift (assert_fatal_that (fs0 =? 0)) ;;;
+   oa <- mem_get_area (p_vaddr ph) ;;
+   match oa with
+   | Some a =>
+       lift (assert_fatal_that (a_len a >=? p_memsz ph)) ;;;
+       end_addr <- lift (add_chk c U64 (p_vaddr ph) (a_len a)) ;;
+       put_fs end_addr
+   | None => fail EElf
+   end)%M.
+
+(* body of `for segment in segments` *)
+Definition load_segment (c : cfg) (f : elf_bytes) (ph : phdr) : MM unit :=
+  if p_vaddr ph =? 0 then debug_expect_p_type c (p_type ph)      (* continue *)
+  else
+    match segment_data f ph with
+    | None => fail EElf
+    | Some content =>
+        let t := p_type ph in
+        if (t =? PT_NULL) || (t =? PT_NOTE) || (t =? PT_SHLIB) || (t =? PT_PHDR) then
+          debug_expect_p_type c t
+        else if (t =? PT_GNU_EH_FRAME) || (t =? PT_GNU_PROPERTY) then ret tt
+        else if t =? PT_DYNAMIC then fail EElf
+        else if t =? PT_GNU_STACK then
+          (if p_flags ph =? Z.lor PF_R PF_W then ret tt else fail EElf)
+        else if t =? PT_TLS then load_pt_tls c ph
+        else if t =? PT_GNU_RELRO then ret tt
+        else if t =? PT_LOAD then (debug_expect_p_type c t ;;; load_pt_load c ph content)%M
+        else fail EFatal
+    end.
+
+Fixpoint load_segments (c : cfg) (f : elf_bytes) (l : list phdr) : MM unit :=
+  match l with
+  | nil => ret tt
+  | ph :: l' => (load_segment c f ph ;;; load_segments c f l')%M
+  end.
+
+Fixpoint load_symbols (strtab : list Z) (l : list symbol) : MM unit :=
+  match l with
+  | nil => ret tt
+  | sy :: l' =>
+      if is_undefined sy then load_symbols strtab l'
+      else
+        match strtab_get strtab (st_name sy) with
+        | None => load_symbols strtab l'
+        | Some name => (symbols_insert (st_value sy) name ;;; load_symbols strtab l')%M
+        end
+  end.
+
+Definition from_binary (c : cfg) (data : list Z) : MM unit :=
+  match minimal_parse data with
+  | None => fail EElf
+  | Some f =>
+      let entry := e_entry (eb_ehdr f) in
+      (regs_insert RIP entry ;;;
+       call_stack_push entry ;;;
+       symbols_insert entry START_NAME ;;;
+       trace_push {| t_ip := 0; t_target := entry; t_variant := TCall; t_level := 0; t_count := 1 |} ;;;
+       match eb_phdrs f with
+       | None => fail EElf                                  (* "ELF: No segments found" *)
+       | Some phbuf =>
+           load_segments c f (table_iter (parse_phdr (eb_little f) (eb_class f)) phbuf) ;;;
+           match symbol_table f with
+           | Some (Some (symtab_buf, strtab_buf)) =>
+               load_symbols strtab_buf
+                 (table_iter (parse_symbol (eb_little f) (eb_class f)) symtab_buf)
+           | _ => ret tt                                    (* "ELF: No symbol table" *)
+           end
+       end)%M
+  end.
